@@ -78,10 +78,11 @@ def _validate_chunks(path, pool):
     lines = open(path).read().splitlines()
     lines = [l for l in lines if l.strip()]
     jobs = []
-    for k in range(0, len(lines), CHUNK):
+    chunk = min(CHUNK, max(40, (len(lines) + 3) // 4))
+    for k in range(0, len(lines), chunk):
         cp = "%s.%d" % (path, k)
         with open(cp, "w") as f:
-            f.write("\n".join(lines[k:k + CHUNK]) + "\n")
+            f.write("\n".join(lines[k:k + chunk]) + "\n")
         jobs.append((k, cp, pool.submit(vlib.validate, SPEC, "PilerTrace", "PilerTrace.cfg", cp)))
     fails, drift, rs, n = [], [], [], 0
     for k, cp, fut in jobs:
@@ -182,14 +183,15 @@ def run(ck, tier):
         # (B) sequences emitted by TLC
         stats = {"instances": set(), "nontrivial": set(), "chains": set(), "rejected": set(), "maxpairs": 0,
                  "maxpile": 0, "filtered_calls": 0}
-        gens = [("all-2adds-2loc-pos0..3", {"Locs": "{1, 2}", "MaxPos": 3, "MinLen": 1, "MaxPairs": 2}, 0, False)]
+        gens = [("all-1..2adds-2loc-pos0..3", {"Locs": "{1, 2}", "MaxPos": 3, "MinLen": 1, "MaxPairs": 2, "EmitFrom": 1}, 0, False)]
         if thorough:
-            gens.append(("all-3adds-1loc-pos0..3", {"Locs": "{1}", "MaxPos": 3, "MinLen": 1, "MaxPairs": 3}, 0, False))
-            gens.append(("all-2adds-2loc-pos0..2-empty", {"Locs": "{1, 2}", "MaxPos": 2, "MinLen": 0, "MaxPairs": 2}, 0, False))
-        gens.append(("walks-4adds-2loc-pos0..5-all-orders", {"Locs": "{1, 2}", "MaxPos": 5, "MinLen": 0, "MaxPairs": 4},
+            gens.append(("all-1..3adds-1loc-pos0..3", {"Locs": "{1}", "MaxPos": 3, "MinLen": 1, "MaxPairs": 3, "EmitFrom": 1}, 0, False))
+            gens.append(("all-1..2adds-2loc-pos0..2-empty", {"Locs": "{1, 2}", "MaxPos": 2, "MinLen": 0, "MaxPairs": 2, "EmitFrom": 1},
+                         0, False))
+        gens.append(("walks-4adds-2loc-pos0..5-all-orders", {"Locs": "{1, 2}", "MaxPos": 5, "MinLen": 0, "MaxPairs": 4, "EmitFrom": 4},
                      700 if thorough else 120, True))
         if thorough:
-            gens.append(("walks-5adds-3loc-pos0..4-all-orders", {"Locs": "{1, 2, 3}", "MaxPos": 4, "MinLen": 0, "MaxPairs": 5},
+            gens.append(("walks-5adds-3loc-pos0..4-all-orders", {"Locs": "{1, 2, 3}", "MaxPos": 4, "MinLen": 0, "MaxPairs": 5, "EmitFrom": 5},
                          60, True))
         sample_done = False
         for label, consts, walks, perm in gens:
@@ -226,6 +228,10 @@ def run(ck, tier):
         tr = os.path.join(work, "random.ndjson")
         n = 1500 if thorough else 150
         p = vlib.harness(["random", "-n", n, "-seed", ck.seed, "-pairs", 40, "-out", tr], cmd="vpiler")
+        for line in p.stdout.splitlines():
+            if line.startswith("probe_add_after_piles="):
+                ck.extra["observation_outside_statement_add_after_piles"] = line.split("=", 1)[1]
+                vlib.log("  [note] outside the statement (Add after a Piles call, then Piles): %s" % line.split("=", 1)[1])
         evs = _judge(ck, "random-40pairs-3loc-0..200", tr, pool, stats)
         e = max(evs[:50], key=lambda e: len(e["adds"]))
         ck.samples.append({"source": "random instance", "adds": len(e["adds"]),
